@@ -171,6 +171,21 @@ def run(ctx):
     d["types"]["Person"].append({"name": "friends", "type": "Person[]"})
     d["types"]["Mail"].append({"name": "re", "type": "Mail[]"})
     add("typeddata/recursive-types", "typeddata", json.dumps(d))
+    # reference cycles that do not pass through the primary type, with finite data
+    cycle_docs = []
+    for types, primary, msg in (
+            ({"Ledger": [{"name": "root", "type": "Folder"}], "Folder": [{"name": "files", "type": "File[]"}], "File": [{"name": "parents", "type": "Folder[]"}]},
+             "Ledger", {"root": {"files": [{"parents": []}, {"parents": [{"files": []}]}]}}),
+            ({"P": [{"name": "q", "type": "Q"}], "Q": [{"name": "r", "type": "R[]"}], "R": [{"name": "s", "type": "S[]"}], "S": [{"name": "q", "type": "Q[]"}]},
+             "P", {"q": {"r": [{"s": [{"q": []}]}]}}),
+            ({"A": [{"name": "b", "type": "B[]"}], "B": [{"name": "c", "type": "C[]"}, {"name": "b", "type": "B[]"}], "C": [{"name": "b", "type": "B[]"}, {"name": "c", "type": "C[]"}]},
+             "A", {"b": [{"c": [{"b": [], "c": []}], "b": []}]})):
+        d = json.loads(json.dumps(TYPED))
+        d["types"] = dict(types, EIP712Domain=d["types"]["EIP712Domain"])
+        d["primaryType"] = primary
+        d["message"] = msg
+        add("typeddata/cycle-off-the-primary-type", "typeddata", json.dumps(d))
+        cycle_docs.append(json.dumps(d))
     for depth in (64, 128):
         add("typeddata/nesting", "typeddata", '{"types":' + "[" * depth + "]" * depth + "}")
         v = "1"
@@ -197,10 +212,13 @@ def run(ctx):
     def cli(cls, args, stdin=None, env=None, timeout=60):
         runs.append((cls, dict(args=args, stdin=stdin, env=env, timeout=timeout)))
 
+    for d_ in cycle_docs:
+        cli("cli/typeddata-cycle", ["hash", "typeddata", "-"], stdin=d_.encode(), timeout=60)
     for v in ["0", "2147483647", "2147483648", "4294967295", "4294967296", "18446744073709551615", "18446744073709551616", "-1", "1.5", "", "abc", "0x10"]:
         cli("cli/account-index", ["address", "--mnemonic", phrase, "--account-index=" + v])
         cli("cli/vanity-account-index", ["new", "--vanity-prefix", "0x", "--vanity-account-index=" + v, "-j", "2"], timeout=30)
-    for p in ["m", "m/", "m/0'", "m/2147483648", "m/4294967296'", "x", "", "m/" + "/".join(["0"] * 2000)]:
+    for p in ["m", "m/", "m/0'", "m/2147483648", "m/4294967296'", "x", "", "m/" + "/".join(["0"] * 2000), "m/" + "/".join(["1'"] * 4000)] + \
+             (["m/" + "/".join(["0"] * 20000)] if thorough else ["m/" + "/".join(["0"] * 7000)]):
         cli("cli/hd-path", ["export", "--mnemonic", phrase, "--hd-path=" + p])
         cli("cli/vanity-hd-path", ["new", "--vanity-prefix", "0x", "--vanity-hd-path=" + p, "-j", "1"], timeout=30)
     for n in list(range(0, 41)) + [255, 256, 257, 1 << 32, (1 << 64) - 1, 1 << 64, -1]:
